@@ -71,7 +71,7 @@ Definition make_ellipsoid (S : einput) (a b c : T) : eresult (structure T P) :=
   end.
 
 Definition make_ellipsoid_opt (S : einput) (a : T) (ob oc : option T) : eresult (structure T P) :=
-  make_ellipsoid S a (c18_default a ob) (c18_default a oc).
+  let b := c18_default_b a ob in let c := c18_default_c a b oc in make_ellipsoid S a b c.
 Definition make_sphere (S : einput) (radius : T) : eresult (structure T P) :=
   let '(a, ob, oc) := c18_sphere_args radius in make_ellipsoid_opt S a ob oc.
 End Generic.
